@@ -1,6 +1,6 @@
 (* Props/C14.v — property C14: status records are updated atomically with respect to every other
    reader and writer.  Only statements, each closed by [exact], and their assumptions.
-   Model: Model/Lock.v (the step sequence of StatusFileData.UpdateFullStatus / Load of
+   Model: Model/Lock.v (the step sequence of StatusFileData.UpdateFullStatus / Load / Save of
    pkg/workceptor/workunitbase.go, N goroutines x M processes as one list of model processes,
    every schedule), tied to the code by `./check C14` (strace projection + stress). *)
 From Receptor Require Import Model.Lock Proofs.Lock.
@@ -17,11 +17,12 @@ Theorem C14_linearizable : forall (R : Type) (file0 : fcontent R) (progs : list 
 Proof. exact linearizable. Qed.
 Print Assumptions C14_linearizable.
 
-(* ... so the stored record is the fold of ALL update functions in that order over the record
-   stored before: no update is lost, each is applied to the latest stored record *)
+(* ... so, when no Save (which replaces the record by the saver's in-memory one) is among them,
+   the stored record is the fold of ALL update functions in that order over the record stored
+   before: no update is lost, each is applied to the latest stored record *)
 Theorem C14_updates_linearizable : forall (R : Type) (r0 : R) (progs : list (list (op R) * R)) sched,
   let c := run true sched (init (FRec r0) progs) in
-  c_lock c = None ->
+  c_lock c = None -> no_saves (c_order c) = true ->
   c_file c = FRec (apply_all (upd_fns (c_order c)) r0).
 Proof. exact updates_linearizable. Qed.
 Print Assumptions C14_updates_linearizable.
@@ -35,16 +36,27 @@ Theorem C14_no_update_lost : forall (R : Type) locking (file0 : fcontent R) (pro
 Proof. exact no_update_lost. Qed.
 Print Assumptions C14_no_update_lost.
 
-(* a reader never sees a partially written record: at EVERY point of EVERY schedule, everything any
-   Read step (of a Load or of an update) has returned is the whole record produced by a prefix of
-   the update order — in particular never the empty file between Truncate and Write *)
+(* a reader never sees a partially written record: at EVERY point of EVERY schedule of programs of
+   updates, loads AND saves, everything any Read step (of a Load or of an update) has returned is
+   a whole record, the one stored after a prefix of the order — never the empty file between
+   Truncate/OpenTrunc and Write *)
 Theorem C14_loads_see_whole_records : forall (R : Type) (r0 : R) (progs : list (list (op R) * R)) sched,
   let c := run true sched (init (FRec r0) progs) in
   forall pv, In pv (c_reads c) ->
-  exists n, (n <= length (c_order c))%nat /\
-            snd pv = FRec (apply_all (upd_fns (firstn n (c_order c))) r0).
+  exists n r, (n <= length (c_order c))%nat /\ snd pv = FRec r /\
+              a_file (atomic_run (a_init (FRec r0) progs) (firstn n (c_order c))) = FRec r.
 Proof. exact loads_see_whole_records. Qed.
 Print Assumptions C14_loads_see_whole_records.
+
+(* ... without Saves: the fold of the update functions of that prefix *)
+Theorem C14_loads_see_fold_of_prefix : forall (R : Type) (r0 : R) (progs : list (list (op R) * R)) sched,
+  let c := run true sched (init (FRec r0) progs) in
+  no_saves (c_order c) = true ->
+  forall pv, In pv (c_reads c) ->
+  exists n, (n <= length (c_order c))%nat /\
+            snd pv = FRec (apply_all (upd_fns (firstn n (c_order c))) r0).
+Proof. exact loads_see_fold_of_prefix. Qed.
+Print Assumptions C14_loads_see_fold_of_prefix.
 
 (* the same without assuming that a record exists at the start (first update of a fresh file) *)
 Theorem C14_reads_are_prefix_states : forall (R : Type) (file0 : fcontent R) (progs : list (list (op R) * R)) sched,
@@ -61,7 +73,7 @@ Print Assumptions C14_reads_are_prefix_states.
 Theorem C14_counters_exact : forall (progs : list (list kop)) sched,
   let nw := length progs in
   let c := run true sched (init (FRec (crec0 nw)) (kprogs nw progs)) in
-  all_done c = true -> c_lock c = None ->
+  no_ksave progs = true -> all_done c = true -> c_lock c = None ->
   exists r, c_file c = FRec r /\
             snd r = map (fun ks => N.of_nat (count_incr ks)) progs /\
             fst r = nsum (snd r).
@@ -84,6 +96,14 @@ Theorem C14_without_lock_torn_read_refuted :
   In (1%nat, FEmpty) (c_reads c).
 Proof. exact lockless_torn_read. Qed.
 Print Assumptions C14_without_lock_torn_read_refuted.
+
+(* ... and Save with its truncating open BEFORE the lock (seeded mutation): a reader holding the
+   lock finds the file empty *)
+Theorem C14_save_truncating_before_lock_refuted :
+  let c := run_early early_trunc_sched (init (FRec (0, 0)) saver_and_reader) in
+  In (1%nat, FEmpty) (c_reads c) /\ all_done c = true /\ c_file c = FRec (5, 5).
+Proof. exact save_truncating_before_lock_refuted. Qed.
+Print Assumptions C14_save_truncating_before_lock_refuted.
 
 (* non-vacuity: with the lock, the schedule of the refutation (completed) loses nothing *)
 Example C14_nonvacuous :
